@@ -132,12 +132,11 @@ def file_list_contract(ck, mod, pairs=((1, 1000), (1, 500), (2, 1000), (3, 1000)
                 secs = ms = None
                 if mm:
                     a_, b_ = int(mm.group(1)), int(mm.group(2))
-                    if len(new) == 2 and new[0][1] == a_ and new[1][1] == b_:
+                    # %i renders the seconds first, then %03i the milliseconds; a concrete value leaves no log entry
+                    if len(new) == 2:
                         secs, ms = new[0], new[1]
-                    elif len(new) == 1 and new[0][1] == a_:
+                    elif len(new) == 1:
                         secs, ms = new[0], (z3.IntVal(b_), b_)
-                    elif len(new) == 1 and new[0][1] == b_:
-                        secs, ms = (z3.IntVal(a_), a_), new[0]
                     elif len(new) == 0:
                         secs, ms = (z3.IntVal(a_), a_), (z3.IntVal(b_), b_)
                 p = _Path(sub, secs, ms)
